@@ -435,6 +435,9 @@ func (fr *Frame) markerCall(fn *ssa.Function, args []Val, pos token.Pos, resType
 			if det {
 				v = Val{T: UFApp(fmt.Sprintf("fn.%s.%d", sanitize(fullName(fn)), i), sortOf(rt), ts...)}
 				c.typeAssume(v.T, rt, fr.curReach)
+				if v.T.S.K == KBool && c.contract != nil && c.contract.Flags["casesplit"] != "" && !hasBound(v.T) {
+					c.splits = append(c.splits, v.T)
+				}
 			} else {
 				v = fr.havocVal(rt, "ret_"+fn.Name())
 			}
